@@ -18,7 +18,13 @@ values, iterable values and identity-hashed objects, and label sets are compared
 defaultdict(set) / a dict subclass; V as set / frozenset / set subclass / dict keys view / states() of another
 structure / a collections.abc.Set.  Sessions: a structure is edited through the public API (add_edge between
 existing states, replace_labelling_function, label_fair_states, K = K.clone()) and clone()/get_substructure are
-compared before the first and after every edit with the model's constructor applied to the edited ARGUMENTS."""
+compared before the first and after every edit with the model's constructor applied to the edited ARGUMENTS.
+Second audit: sessions also (a) GROW the structure (add_node / add_edge introducing new states; labels(s) of EVERY
+state is read after each single call), (b) edit through the HANDLES the API hands out (labels(s).add/.discard,
+labelling_function()[s] = set - also for a non-state -, S0.add/.discard, S0 = set) - a copy is taken after every
+such edit -, (c) ask labels(s)/next(s) of every state and of non-states (the foreign key the edits install, states
+not yet added) after every edit, and (d) take one clone and one substructure per step that nobody READS until the
+original has been edited again (keys late:...): the late reading must be the copy of the moment it was taken."""
 import itertools
 import collections
 import collections.abc
@@ -242,27 +248,84 @@ def fair_name(L):
     return name
 
 
+NEW = [50, 51]                   # states that only edit sessions add (add_node / add_edge); non-states until then
+
+
 def gen_session(case, rng):
-    """edits through the public API that keep the structure total and fully labelled, and the V to ask after each"""
-    st = case_states(case)
+    """edits that keep the structure total and fully labelled, and the V to ask after each.  Through the public
+    METHODS: edge (add_edge between existing states), grow (add_node / add_edge introducing NEW states, then repaired
+    to total), relabel, fair, clone; through the HANDLES the API hands out: hlabel (labels(s) / labelling_function()[s]
+    .add/.discard), hlf (labelling_function()[s] = set, s a state or a non-state), hS0 (S0.add / .discard / S0 = set)."""
+    st = list(case_states(case))
     edges = {(a, b) for a, b in case['R']}
     edits = []
-    for _ in range(rng.randint(1, 3)):
+    for _ in range(rng.randint(2, 4)):
         free = [(a, b) for a in st for b in st if (a, b) not in edges]
-        kind = rng.choice(['edge', 'edge', 'edge', 'relabel', 'fair', 'clone'])
+        kind = rng.choice(['edge', 'edge', 'edge', 'relabel', 'relabel', 'fair', 'fair', 'clone', 'clone',
+                           'grow', 'grow', 'hlabel', 'hlabel', 'hS0', 'hlf'])
+        unused = [v for v in NEW if v not in st]
         if kind == 'edge' and free:
             e = rng.choice(free)
             edges.add(e)
             edits.append(['edge', e[0], e[1]])
+        elif kind == 'grow' and unused:
+            prims = []
+            fresh = unused[:rng.randint(1, len(unused))]
+            for v in fresh:
+                shape = rng.randrange(4)
+                if shape == 0:
+                    prims.append(['node', v])
+                elif shape == 1:
+                    prims.append(['edge', v, v])
+                elif shape == 2:
+                    prims.append(['edge', rng.choice(st), v])
+                else:
+                    prims.append(['edge', v, rng.choice(st)])
+                st.append(v)
+            for p in prims:
+                if p[0] == 'edge':
+                    edges.add((p[1], p[2]))
+            for v in fresh:                      # repair: every new state gets a successor
+                if not any(a == v for a, _ in edges):
+                    e = (v, rng.choice(st))
+                    edges.add(e)
+                    prims.append(['edge', e[0], e[1]])
+            edits.append(['grow', prims])
         elif kind == 'relabel':
             edits.append(['relabel', [[s, [a for a in APS if rng.random() < 0.5]]
                                       for s in st + [FOREIGN] if rng.random() < 0.7]])
         elif kind == 'fair':
             edits.append(['fair', [[s for s in st if rng.random() < 0.5] for _ in range(rng.randint(0, 2))]])
+        elif kind == 'hlabel':
+            edits.append(['hlabel', rng.choice(st), rng.choice(APS), rng.choice(['add', 'add', 'discard']),
+                          rng.choice(['labels', 'labels', 'lf'])])
+        elif kind == 'hS0':
+            edits.append(['hS0', rng.choice(['add', 'add', 'discard', 'assign']), [s for s in st if rng.random() < 0.5]])
+        elif kind == 'hlf':
+            edits.append(['hlf', rng.choice(st + [FOREIGN]), [a for a in APS if rng.random() < 0.5]])
         else:
             edits.append(['clone'])
     Vs = [list(st)] + [[x for x in st + [FOREIGN] if rng.random() < 0.6] for _ in range(2)]
     return {'edits': edits, 'Vs': Vs}
+
+
+def session_states(case):
+    """the states before the first and after every edit of the session"""
+    cur = list(case_states(case))
+    out = [sorted(cur)]
+    for e in case['session']['edits']:
+        if e[0] == 'grow':
+            for p in e[1]:
+                for v in p[1:]:
+                    if v not in cur:
+                        cur.append(v)
+        out.append(sorted(cur))
+    return out
+
+
+def session_queries(states):
+    """labels(s)/next(s) asked after every edit: every state, the foreign key the edits install, not-yet-added states"""
+    return sorted(set(states) | {FOREIGN} | set(NEW))
 
 
 def finish_case(case, rng, nV=None, session=0.0):
@@ -419,9 +482,52 @@ def share_findings(K, K2, key, alias):
             alias.append([key, 'S0 object shared'])
 
 
+def label_view(K, inv, ginv):
+    """labels(s) of EVERY current state (an exception is part of the view)"""
+    v = []
+    for s in list(K.states()):
+        q = qcall(lambda: sorted(ginv(a) for a in K.labels(s)))
+        v.append([inv(s), q[1] if q[0] == 'ok' else 'err:' + str(q[1])])
+    return sorted(v, key=lambda x: x[0])
+
+
+def query_state(K, s, fs, inv, ginv, out, prefix=''):
+    """labels(s) / next(s) of one (non-)state, canonical"""
+    q = qcall(lambda: K.labels(fs))
+    if q[0] == 'ok':
+        q = qcall(lambda: sorted(ginv(a) for a in q[1]))
+    out['%slabels:%d' % (prefix, s)] = [q[0], q[1]]
+    q = qcall(lambda: K.next(fs))
+    if q[0] == 'ok':
+        q = qcall(lambda: sorted(inv(d) for d in q[1]))
+    out['%snext:%d' % (prefix, s)] = [q[0], q[1]]
+
+
+def handle_edit(K, e, f, g):
+    """an edit through an object the API handed out (label set, labelling dict, S0)"""
+    if e[0] == 'hlabel':
+        ls = K.labels(f(e[1])) if e[4] == 'labels' else K.labelling_function()[f(e[1])]
+        if e[3] == 'add':
+            ls.add(g(e[2]))
+        else:
+            ls.discard(g(e[2]))
+    elif e[0] == 'hlf':
+        K.labelling_function()[f(e[1])] = set(g(a) for a in e[2])
+    elif e[1] == 'add':
+        for s in e[2]:
+            K.S0.add(f(s))
+    elif e[1] == 'discard':
+        for s in e[2]:
+            K.S0.discard(f(s))
+    else:
+        K.S0 = set(f(s) for s in e[2])
+
+
 def run_session(case, out, alias):
     """a fresh structure edited through the public API; clone()/get_substructure before the first and after every
-    edit (keys s<i>:...).  Returns {step: fair states found by the implementation} for the model's prediction."""
+    edit (keys s<i>:...), labels(s)/next(s) of every state and of non-states after every edit, and one clone / one
+    substructure per step that is taken, left UNREAD, and observed only after the next edit (keys s<i>:late:...).
+    Returns {step: fair states found by the implementation} for the model's prediction."""
     from pyModelChecking.kripke import Kripke
     f, inv = renaming(case['ren'])
     g, ginv = atom_maps(case.get('vocab', 0))
@@ -434,6 +540,14 @@ def run_session(case, out, alias):
     K = r[1]
     fair = {}
     vk = case.get('vk', 0)
+    sstates = session_states(case)
+    pending = []
+
+    def read_pending():
+        for key, r0 in pending:
+            out[key] = obs_of(r0, inv, ginv)
+        del pending[:]
+
     for i in range(len(sess['edits']) + 1):
         if i > 0:
             e = sess['edits'][i - 1]
@@ -441,6 +555,16 @@ def run_session(case, out, alias):
             res = None
             if e[0] == 'edge':
                 r = qcall(lambda: K.add_edge(f(e[1]), f(e[2])))
+            elif e[0] == 'grow':
+                res = []
+                for p in e[1]:
+                    if p[0] == 'node':
+                        r = qcall(lambda: K.add_node(f(p[1])))
+                    else:
+                        r = qcall(lambda: K.add_edge(f(p[1]), f(p[2])))
+                    if r[0] != 'ok':
+                        break
+                    res.append(label_view(K, inv, ginv))       # possibly not total here: no copy, only labels(s)
             elif e[0] == 'relabel':
                 L2 = {f(s): set(g(a) for a in at) for s, at in e[1]}
                 r = qcall(lambda: K.replace_labelling_function(L2))
@@ -451,6 +575,8 @@ def run_session(case, out, alias):
                     fair[i] = r[1]
                     r = qcall(lambda: K.label_fair_states(F))
                     res = r[1] if r[0] == 'ok' else None
+            elif e[0] in ('hlabel', 'hlf', 'hS0'):
+                r = qcall(lambda: handle_edit(K, e, f, g))
             else:
                 r = qcall(lambda: K.clone())
                 if r[0] == 'ok':
@@ -458,6 +584,9 @@ def run_session(case, out, alias):
             out[key] = ['ok', res] if r[0] == 'ok' else ['err', r[1]]
             if r[0] != 'ok':
                 break
+            read_pending()                       # copies taken before this edit, first read now
+            for s in session_queries(sstates[i]):
+                query_state(K, s, f(s), inv, ginv, out, 's%d:' % i)
         snap = qcall(lambda: kripke_snapshot(K))
         ops = [('clone', None)] + [('sub:' + ','.join(map(str, V)), V) for V in sess['Vs']]
         for j, (k2, V) in enumerate(ops):
@@ -473,6 +602,13 @@ def run_session(case, out, alias):
             if qcall(lambda: kripke_snapshot(K)) != snap:
                 alias.append([key, 'the structure changed by copying it'])
                 snap = qcall(lambda: kripke_snapshot(K))
+        # copies nobody looks at until the original has been edited again
+        pending.append(('s%d:late:clone' % i, qcall(lambda: K.clone())))
+        V0 = sess['Vs'][(i + len(sess['edits'])) % len(sess['Vs'])]
+        Vset0 = mk_V([f(v) for v in V0], (vk + i) % len(V_KINDS))
+        pending.append(('s%d:late:sub:%s' % (i, ','.join(map(str, V0))), qcall(lambda: K.get_substructure(Vset0))))
+    mutate(K, 'ww')
+    read_pending()
     return fair
 
 
@@ -518,11 +654,31 @@ def run_impl(case):
         if qcall(lambda: kripke_snapshot(K)) != snap0:
             alias.append([key, 'the original changed (by the operation or by mutating its result)'])
             snap0 = qcall(lambda: kripke_snapshot(K))
+    # copies that are taken now, left UNREAD while the original is mutated, and observed only afterwards
+    late = []
+    full = sorted(case_states(case))
+    pick = {0}
+    for i, (_k, V) in enumerate(ops):
+        if V is not None and sorted(V) == full:
+            pick.add(i)
+            break
+    if len(ops) > 1:
+        pick.add(1 + (len(case['R'] or []) + 3 * len(case['L'] or []) + vk) % (len(ops) - 1))
+    pick = sorted(pick)
+    for i in pick:
+        key, V = ops[i]
+        if V is None:
+            late.append(('late:' + key, qcall(lambda: K.clone())))
+        else:
+            Vset = mk_V([f(v) for v in V], (vk + i + 1) % len(V_KINDS))
+            late.append(('late:' + key, qcall(lambda: K.get_substructure(Vset))))
     # and vice versa: mutate the original, the copies made earlier must not move
     mutate(K, 'yy')
     for key, K2, snap2 in kept:
         if qcall(lambda: kripke_snapshot(K2)) != snap2:
             alias.append([key, 'the result changed when the original was mutated afterwards'])
+    for key, r0 in late:
+        out[key] = obs_of(r0, inv, ginv)
     fair = run_session(case, out, alias) if case.get('session') else {}
     return out, alias, fair
 
@@ -603,6 +759,33 @@ def session_steps(case, ctor_obs, fair):
         results['s%d:edit' % i] = ['ok', None]
         if e[0] == 'edge':
             cur['R'].append([e[1], e[2]])
+        elif e[0] == 'grow':
+            views = []
+            for p in e[1]:
+                for v in p[1:]:
+                    if v not in cur['S']:
+                        cur['S'].append(v)
+                if p[0] == 'edge':
+                    cur['R'].append([p[1], p[2]])
+                lm = {s: at for s, at in cur['L']}
+                views.append([[s, sorted(lm.get(s, []))] for s in sorted(cur['S'])])
+            results['s%d:edit' % i] = ['ok', views]
+        elif e[0] == 'hlabel':
+            lm = {s: list(at) for s, at in cur['L']}
+            at = [a for a in lm.get(e[1], []) if a != e[2]] + ([e[2]] if e[3] == 'add' else [])
+            lm[e[1]] = at
+            cur['L'] = [[s, at] for s, at in lm.items()]
+        elif e[0] == 'hlf':
+            lm = {s: list(at) for s, at in cur['L']}
+            lm[e[1]] = list(e[2])
+            cur['L'] = [[s, at] for s, at in lm.items()]
+        elif e[0] == 'hS0':
+            if e[1] == 'add':
+                cur['S0'] = sorted(set(cur['S0']) | set(e[2]))
+            elif e[1] == 'discard':
+                cur['S0'] = sorted(set(cur['S0']) - set(e[2]))
+            else:
+                cur['S0'] = sorted(e[2])
         elif e[0] == 'relabel':
             cur['L'] = [[s, list(at)] for s, at in e[1]]
         elif e[0] == 'fair':
@@ -617,11 +800,15 @@ def session_steps(case, ctor_obs, fair):
     return steps, results
 
 
-def session_ops(case, i, Ksx):
+def session_ops(case, i, Ksx, states=None):
     ks = sx_str(Ksx)
     cmds = [('s%d:clone' % i, '(kclone %s)' % ks)]
     for V in case['session']['Vs']:
         cmds.append(('s%d:sub:%s' % (i, ','.join(map(str, V))), '(substr %s %s)' % (ks, sx_str(V))))
+    if i > 0 and states is not None:
+        for s in session_queries(states):
+            cmds.append(('s%d:labels:%d' % (i, s), '(labels %s %d)' % (ks, s)))
+            cmds.append(('s%d:next:%d' % (i, s), '(knext %s %d)' % (ks, s)))
     return cmds
 
 
@@ -659,7 +846,7 @@ def process(R, cases, st, verbose=False):
     for idx in sorted(sess):
         for i in range(len(sess[idx][0])):
             if r1b[pos][0] == 'ok':
-                plan[idx] = plan[idx] + session_ops(cases[idx], i, r1b[pos][1])
+                plan[idx] = plan[idx] + session_ops(cases[idx], i, r1b[pos][1], session_states(cases[idx])[i])
             pos += 1
     flat = [s for p in plan for _, s in p]
     r2, n2 = model_many(flat)
@@ -673,6 +860,9 @@ def process(R, cases, st, verbose=False):
         for key, _s in p:
             model[key] = m_answer(key, r2[pos])
             pos += 1
+        for key in out:                          # a copy read late is the copy of the moment it was taken
+            if 'late:' in key and key.replace('late:', '', 1) in model:
+                model[key] = model[key.replace('late:', '', 1)]
         if verbose:
             print('case :', json.dumps(c))
             for k in sorted(set(out) | set(model)):
@@ -709,6 +899,14 @@ def process(R, cases, st, verbose=False):
             continue
         if model['ctor'][0] != 'ok':
             continue
+        for k, v in out.items():
+            if 'late:' in k:
+                hk = ('session ' if k[0] == 's' and k[1].isdigit() else 'plain ') + ('clone' if k.endswith('clone') else 'substructure') \
+                    + (' (RuntimeError)' if v[0] != 'ok' else '')
+                st['late'][hk] = st['late'].get(hk, 0) + 1
+            elif k[0] == 's' and k[1].isdigit() and (':labels:' in k or ':next:' in k):
+                hk = k.split(':')[1] + (' of a state' if v[0] == 'ok' else ' of a non-state: ' + str(v[1]))
+                st['session_queries'][hk] = st['session_queries'].get(hk, 0) + 1
         if idx in sess:
             st['sessions'] += 1
             for i, e in enumerate(c['session']['edits'], 1):
@@ -805,7 +1003,7 @@ def malformed(R, st):
 def new_stats():
     return {'ctor': {'ok': 0, 'RuntimeError': 0}, 'sub': {'ok': 0, 'RuntimeError': 0}, 'nontriv_sub': {}, 'ren': {},
             'n_states': {}, 'violations': 0, 'model_cmds': 0, 'ctor_alias': {'True': 0, 'False': 0},
-            'vocab': {}, 'Lk': {}, 'sessions': 0, 'session_edits': {}}
+            'vocab': {}, 'Lk': {}, 'sessions': 0, 'session_edits': {}, 'late': {}, 'session_queries': {}}
 
 
 class Collector:
@@ -941,6 +1139,15 @@ def run(R):
               'get_substructure(all states / 2 random V) BEFORE the first and AFTER every edit, compared with the model\'s operations on the model\'s '
               'constructor applied to the edited arguments (the fair states are taken from the implementation\'s get_fair_states, the label name from the '
               'documented fair, fair0, ... scheme); all compared with the model as sets; non-trivial = K constructed '
+              'SECOND AUDIT additions - sessions now have 2-4 edits drawn from: edge, relabel, fair, clone (as before), GROW (add_node(v) / add_edge with 1-2 '
+              'new states 50, 51 as source, target or self-loop, repaired to total by further add_edge; after EVERY single call labels(s) of every '
+              'state is compared with the edited arguments: new states have the empty set), HANDLE edits: labels(s).add/.discard or '
+              'labelling_function()[s].add/.discard, labelling_function()[s] = set (s a state or the foreign non-state), S0.add/.discard of states, '
+              'S0 = set of states - clone()/get_substructure follow every such edit; after every edit labels(s)/next(s) of every state, of the '
+              'foreign key and of the not-yet-added states vs the model (RuntimeError for non-states); UNREAD COPIES: in every constructed case '
+              'clone() + get_substructure(all states) + one more V are taken, not touched while the original is mutated through every handle and '
+              'add_edge, and observed only then (late:...), and in sessions one clone + one substructure per step is first read after the NEXT edit '
+              '(s<i>:late:...; after a final handle mutation for the last step): both must equal the model\'s copy at the moment of taking; '
               'with >= 2 states and a substructure query whose V meets the states in a proper non-empty subset, distinct by (arguments, renaming, V); '
               'or an edit-session prefix, distinct by (arguments, renaming, edits)' % (len(VOCABS) - 1))
     st = new_stats()
@@ -951,6 +1158,10 @@ def run(R):
         sizes[name] = len(cs)
         process_parallel(R, cs, st)
     malformed(R, st)
+    # structures grown step by step with add_node / add_edge, nothing labelled by the caller, against the extracted kapply / label_entry
+    # (Model/KripkeOps.v) and the three checkers after every step: the regression stream of fix 8bf41ed
+    import c14_grown
+    c14_grown.grown_structures(R)
     R.cov['distribution'] = {
         'cases_per_generator': sizes,
         'constructor_outcome': st['ctor'],
@@ -965,6 +1176,8 @@ def run(R):
     R.cov['distribution']['V_container_kinds (cycled over the queries of each structure)'] = sorted(set(V_KINDS))
     R.cov['distribution']['edit_sessions'] = st['sessions']
     R.cov['distribution']['session_edits_by_kind'] = st['session_edits']
+    R.cov['distribution']['late_read_copies (taken, left unread while the original is edited, then compared)'] = st['late']
+    R.cov['distribution']['session_queries_after_edits (labels/next of states and non-states)'] = st['session_queries']
     R.cov['malformed_arguments_outcome (informational)'] = st['malformed']
     R.cov['constructor_keeps_reference_to_callers_containers (informational)'] = st['ctor_alias']
     R.cov['exhaustive_subspace'] = 'all argument combinations over <= 2 states (64410 cases) x all V; 3-state space sampled over (S0, L) only'
@@ -975,6 +1188,9 @@ def run(R):
 
 def replay(R, data):
     d = data['data']
+    if d.get('stream') == 'grown structures':
+        import c14_grown
+        return c14_grown.replay_grown(R, d)
     if 'malformed' in d:
         st = new_stats()
         malformed(R, st)
